@@ -62,8 +62,7 @@ end
 /-- canonical tree: adjacent text merged, empty text dropped -/
 def canonSx (t : Node) : Sexp := treeSx t.norm
 
-def outcomeName : Outcome → String
-  | .ok _ => "ok"
+def excName : Exc → String
   | .multipleRoot => "MultipleRootNodeException"
   | .invalidClose => "InvalidCloseException"
   | .missedClose => "MissedCloseException"
@@ -81,6 +80,6 @@ def docSx (d : Doc) : Sexp :=
 
 def feedSx : FeedResult → Sexp
   | .doc d second => .list [sym (if second then "second" else "first"), docSx d]
-  | .raised o => .list [sym "raise", sym (outcomeName o)]
+  | .raised e => .list [sym "raise", sym (excName e)]
 
 end Driver.TokIO
